@@ -184,15 +184,7 @@ def run(out, tier, seed, proof):
             twice = [t for t in set(ran) if ran.count(t) > 1]
             never = r["exit"] == 0 and len(set(ran)) != nfun
             if dup or lost or twice or never:
-                explicit = {d["name"] for d in mod["decorated"] if d["name"] is not None}
-                generated_like = any("[" in e for e in explicit)
-                # the known findings explain exactly the losses/doublings the faithful model has too
-                fid = ()
-                if got in allowed[ci]:
-                    if explicit & set(mod["prefixed"]) and dup:
-                        fid = ("F8",)
-                    elif generated_like and lost and not dup:
-                        fid = ("F7",)
+                fid = ()       # F7 and F8 are repaired: any loss or doubling is reported
                 out.violation("functions and collected tasks do not correspond one to one although collection succeeded",
                               {"case": c, "tasks": names, "functions": nfun, "ran": ran}, finding_matchers=fid)
     run_layouts(out, rng, 12 if tier == "quick" else 150)
